@@ -28,6 +28,17 @@ def mk(tr):
     if own is not None and tr is _CUR['trains'][0] and all(own[0] <= x <= own[1] for x in s):
         # unequal-edges variant: the first train is passed with its own, narrower edges
         ts, te = own
+    own01 = _CUR.get('own01') if isinstance(_CUR, dict) else None
+    if own01 is not None:
+        for k_ in (0, 1):
+            if tr is _CUR['trains'][k_] and all(own01[k_][0] <= x <= own01[k_][1] for x in s):
+                ts, te = own01[k_]
+    dup = _CUR.get('dup') if isinstance(_CUR, dict) else None
+    if dup is not None and dup[0] < len(_CUR['trains']) and tr is _CUR['trains'][int(dup[0])] and int(dup[1]) < len(s):
+        # repeated-spike variant: one spike time of this train is listed twice (sorted, same edges); every
+        # public function reconciles by default, so nothing may change (C13)
+        j = int(dup[1])
+        s = list(s[:j + 1]) + list(s[j:])
     return SpikeTrain(np.array([float(v) for v in s], dtype=float), [float(ts), float(te)])
 
 
@@ -295,7 +306,37 @@ def o_C03(sc):
     return recall_check('C03', sc, 'spike_sync_profile', **mt_of(sc), **kwargs_of(sc))
 
 
+def matrix_vs_reconciled(prop, sc, which):
+    """variant `own01`: the first TWO trains are handed over on narrower edges of their own. A matrix function
+    reconciles the whole list first, so every entry is the pair value on the COMMON interval of all trains
+    (a helper that lets each pair reconcile on its own sees a shorter recording for the pair (0,1))."""
+    L = mkl(sc)
+    R = quiet(spk.spikes.reconcile_spike_trains, L)
+    kw = dict(kwargs_of(sc)); mt = mt_of(sc)
+    if kw.get('MRTS') == 'auto':
+        from pyspike.isi_lengths import default_thresh
+        kw['MRTS'] = float(quiet(default_thresh, R))
+    tab = {'dir': (spk.spike_directionality_matrix, lambda u, v, k: quiet(spk.spike_directionality, u, v, **k), dict(mt, normalize=False)),
+           'isi': (spk.isi_distance_matrix, lambda u, v, k: quiet(spk.isi_distance, u, v, **k), {}),
+           'spike': (spk.spike_distance_matrix, lambda u, v, k: quiet(spk.spike_distance, u, v, **k), ({'RI': True} if sc['kw'].get('ri') else {})),
+           'sync': (spk.spike_sync_matrix, lambda u, v, k: quiet(spk.spike_sync, u, v, **k), dict(mt))}
+    kw_ = {k: v for k, v in kw.items() if k != 'RI'}
+    for name in which:
+        f, pair, extra = tab[name]
+        k = dict(kw_); k.update(extra)
+        M = quiet(f, L, **k)
+        for i in range(len(L)):
+            for j in range(len(L)):
+                if i != j:
+                    e = pair(R[i], R[j], k)
+                    if not feq(M[i, j], e):
+                        return '%s %s matrix entry (%d,%d) = %r, the pair value on the common interval of all trains is %r' % (prop, name, i, j, M[i, j], e)
+    return None
+
+
 def o_C04(sc):
+    if sc.get('own01'):
+        return matrix_vs_reconciled('C04', sc, ['dir'])
     L = mkl(sc)
     kw = dict(kwargs_of(sc)); mt = mt_of(sc)
     (s1, ts, te), (s2, _, _) = sc['trains'][:2]
@@ -408,6 +449,12 @@ def o_C05(sc):
 
 
 def o_C06(sc):
+    if sc.get('own01'):
+        return matrix_vs_reconciled('C06', sc, ['isi', 'spike', 'sync'])
+    return _o_C06(sc)
+
+
+def _o_C06(sc):
     L = mkl(sc)
     N = len(L)
     pairs = [(i, j) for i in range(N) for j in range(i + 1, N)]
@@ -751,6 +798,19 @@ def o_C15(sc):
         y = quiet(f, L, MRTS=thr, **k)
         if not res_eq(x, y):
             return "C15 MRTS='auto' differs from passing the automatic threshold explicitly (%s)" % f.__name__
+    # the two-train call forms, also with one train without spikes (it contributes the recording length once)
+    ts0, te0 = float(sc['trains'][0][1]), float(sc['trains'][0][2])
+    empty = SpikeTrain(np.array([], dtype=float), [ts0, te0])
+    if 'own0' not in sc:
+        for u, v in ((a, b), (a, empty), (empty, b)):
+            thr2 = quiet(default_thresh, quiet(spk.spikes.reconcile_spike_trains, [u, v]))
+            for f, k in ((spk.isi_profile, {}), (spk.spike_profile, ri), (spk.spike_sync_profile, mt), (spk.isi_distance, {}),
+                         (spk.spike_distance, ri), (spk.spike_sync, mt)):
+                x = quiet(f, u, v, MRTS='auto', **k)
+                y = quiet(f, u, v, MRTS=thr2, **k)
+                if not res_eq(x, y):
+                    return "C15 %s(st1, st2, MRTS='auto') differs from passing the pooled threshold of the two trains explicitly (spike counts %d / %d)" % (
+                        f.__name__, len(u.spikes), len(v.spikes))
     return None
 
 
@@ -811,6 +871,24 @@ def o_C16(sc):
             M = quiet(spk.spike_sync_matrix, [a, b], **k, **kw)
             if not (feq(v, e_) and feq(v2, e_) and feq(M[0, 1], e_)):
                 return 'C16 max_tau=%s interval=%s: spike_sync %r / list form %r / matrix %r, but the coincidences within max_tau give %r' % (mt, iv, v, v2, M[0, 1], e_)
+    if len(L) >= 3:
+        # the multivariate value with an averaging interval: pooled counts of the PAIR profiles with the same
+        # max_tau (a bound lost on one path of one call form shows up here)
+        for mt in (t1, t2):
+            pairs_ = [quiet(spk.spike_sync_profile, L[i_], L[j_], max_tau=float(mt), **kw) for i_ in range(len(L)) for j_ in range(i_ + 1, len(L))]
+            for iv in ivs_:
+                c = m_ = 0.0
+                for pp in pairs_:
+                    for x, y, mp in list(zip(pp.x, pp.y, pp.mp))[1:-1]:
+                        if iv is None or iv[0] < x < iv[1]:
+                            c += y; m_ += mp
+                e_ = 1.0 if m_ == 0 else c / m_
+                k = {'max_tau': float(mt)}
+                if iv is not None:
+                    k['interval'] = iv
+                v = quiet(spk.spike_sync, L, **k, **kw)
+                if not feq(v, e_):
+                    return 'C16 max_tau=%s interval=%s: spike_sync of the %d trains is %r, the pair profiles with the same max_tau give %r' % (mt, iv, len(L), v, e_)
     if np.any(p2.y < p1.y) or np.any(np.abs(o2.y) < np.abs(o1.y)) or len(f2[0].spikes) < len(f1[0].spikes):
         return 'C16 enlarging max_tau from %s to %s removes a coincidence' % (t1, t2)
     if np.any(np.abs(pn.y) < np.abs(p2.y)):
@@ -833,7 +911,27 @@ def o_C16(sc):
     return None
 
 
+def o_C17_alias(sc):
+    """the same SpikeTrain object twice in the list (with Reconcile=False nothing is copied): the result must
+    be the one for two equal but distinct objects"""
+    L = mkl(sc)
+    if len(L) < 2 or sc.get('own0') or sc['kw'].get('mrts') == 'auto':
+        return None
+    a, b = L[0], L[1]
+    thr = float(sc['thr'])
+    k = dict(mt_of(sc)); k.update(kwargs_of(sc))
+    r1 = quiet(spk.filter_by_spike_sync, [a, a, b], thr, Reconcile=False, **k)
+    r2 = quiet(spk.filter_by_spike_sync, [a, a.copy(), b], thr, Reconcile=False, **k)
+    for u, v in zip(r1, r2):
+        if list(u.spikes) != list(v.spikes):
+            return 'C17 filter of [a, a, b] (same object twice, Reconcile=False) keeps %s, of [a, copy(a), b] keeps %s' % (list(u.spikes), list(v.spikes))
+    return None
+
+
 def o_C17(sc):
+    r_ = o_C17_alias(sc)
+    if r_:
+        return r_
     L = mkl(sc)
     N = len(L)
     thr = sc['thr']
@@ -1322,6 +1420,36 @@ def o_C10(sc):
         seq = quiet(g, [float(t) for t in ts_])
         if not aeq(seq, [float(e) for e in exp]):
             return 'C10 evaluation of a list of times %s differs from the single-time values %s' % (list(seq), [float(e) for e in exp])
+    # a list of times with repeats and in arbitrary order, every interior breakpoint included twice:
+    # "identically for a single time and for a list of times"
+    bps = [Fr(v) for v in x[1:-1]]
+    rep = bps + ts_[:3] + bps[::-1] + ts_[:3]
+    if rep:
+        def one(t):
+            if t == x[0]:
+                return ev(t, +1)
+            if t == x[-1]:
+                return ev(t, -1)
+            if t in x:
+                return (ev(t, +1) + ev(t, -1)) / 2
+            return ev(t, +1)
+        seq = quiet(g, [float(t) for t in rep])
+        if not aeq(seq, [float(one(t)) for t in rep]):
+            return 'C10 evaluation of a list with repeated times %s gives %s, single-time values %s' % (
+                [float(t) for t in rep], list(seq), [float(one(t)) for t in rep])
+    # the support cut into 3, 4, … consecutive intervals (each starts exactly where the previous ends):
+    # summed integrals / summed lengths = the average over the whole support
+    cuts = sorted({Fr(x[0]), Fr(x[-1])} | {Fr(t) for t in ts_ if x[0] < t < x[-1]} | set(bps[:2]))
+    if len(cuts) >= 4:
+        part = [(float(cuts[k]), float(cuts[k + 1])) for k in range(len(cuts) - 1)]
+        full_ = integral_exact(kind, f, Fr(x[0]), Fr(x[-1]))
+        if not feq(quiet(g.avrg, part), full_ / (x[-1] - x[0])):
+            return 'C10 avrg over the support cut into %d consecutive intervals %s is %r, the average over the support is %s' % (
+                len(part), part, quiet(g.avrg, part), float(full_ / (x[-1] - x[0])))
+        sub = part[1:]
+        e_ = integral_exact(kind, f, cuts[1], Fr(x[-1]))
+        if len(sub) >= 3 and not feq(quiet(g.avrg, sub), e_ / (x[-1] - cuts[1])):
+            return 'C10 avrg over %d consecutive intervals %s is not the average over their union' % (len(sub), sub)
     px, py = quiet(g.get_plottable_data)
     ex, ey = [], []
     for k in range(len(x) - 1):
